@@ -1,4 +1,4 @@
-(* C12 - the versions side of the protocol: the admitted writer works on the latest version
+(* C12 - the versions side of the protocol: the granted writer works on the latest version
    (its unlocked reads are stable), commits never fail, and the history of versions is the serial
    application of the ended transactions in admission order. *)
 From DV Require Import Base.Prelude Model.VersM Model.WritersM Proofs.VersInv Proofs.VersThms Proofs.WritersInv.
@@ -41,7 +41,7 @@ Proof.
     repeat split; try assumption; try reflexivity. apply (prune_keeps_last _ _ _ _ Hpp).
 Qed.
 
-(* _commit_version_unlocked by the admitted writer, whose id is the next id: never fails *)
+(* _commit_version_unlocked by the granted writer, whose id is the next id: never fails *)
 Lemma vstep_commit z id c :
   Inv z -> VersM.wtxn z = None -> id = next_id (versions z) ->
   exists z', VersM.step (vz_set_wtxn z (Some (mkW id c true))) WCommit = Ok (z', RUnit) /\
@@ -122,7 +122,7 @@ Record InvC (s : st) : Prop := mkInvC {
   c_track : forall t, on_track (prg s t) (vz s) (pcs s t);
   c_fam : forall t, wfam (pcs s t) = true -> exists r es cm, prg s t = PWriter r es cm;
   c_hist : hist (vz s) = serial (map (prg s) (ended s));
-  c_adm : admitted s = ended s ++ match wtxn s with Some t => [t] | None => [] end;
+  c_adm : granted s = ended s ++ match wtxn s with Some t => [t] | None => [] end;
   c_read : forall t i c, rsnap (pcs s t) = Some (i, c) -> In (mkV i c) (hist (vz s))
 }.
 
@@ -156,7 +156,7 @@ Proof.
 Qed.
 
 Lemma invC_fields s s' :
-  prg s' = prg s -> pcs s' = pcs s -> vz s' = vz s -> wtxn s' = wtxn s -> admitted s' = admitted s ->
+  prg s' = prg s -> pcs s' = pcs s -> vz s' = vz s -> wtxn s' = wtxn s -> granted s' = granted s ->
   ended s' = ended s -> InvC s -> InvC s'.
 Proof.
   intros E1 E2 E3 E4 E5 E6 H. destruct H. constructor; rewrite ?E1, ?E2, ?E3, ?E4, ?E5, ?E6; assumption.
@@ -236,7 +236,7 @@ Proof.
     + rewrite K2. auto.
     + intros i x. rewrite K3. auto.
   - destruct c as [ev|id c cm|sel|h|p].
-    + (* writer(): admit or enqueue; the versions are not touched *)
+    + (* writer(): grant or enqueue; the versions are not touched *)
       cbn [exec_crit].
       assert (Hf : exists r es cm, prg s t = PWriter r es cm) by (apply (c_fam s H); rewrite Hpc; reflexivity).
       destruct ((match wtxn s with None => true | Some _ => false end) && oeqb ev (wevent s)) eqn:Ht.
